@@ -33,6 +33,7 @@ type Obligation struct {
 	ReplayNote string
 	ReplaySrc  string
 	BatchSMT   string // query for the conjunction of a group of goals sharing one path (tried first)
+	lazy       func() // builds SMT/SMTLight on demand (members of a batch are only built when the batch fails)
 	goalTerm   *Term
 	batchDone  bool
 }
@@ -340,6 +341,7 @@ type Exec struct {
 	curLoop     *loopInfo
 	selRoots    []map[string]bool
 	callArgs    []Value // arguments of the call whose call-site assertion is being evaluated
+	lazySMT     bool  // obligations emitted now are members of a batch: their own queries are built on demand
 	uses        []int // when non-nil: only these loop invariants are kept as hypotheses of the obligation being built
 }
 
@@ -687,8 +689,25 @@ func (e *Exec) emit(s *State, kind string, goal *Term, pos token.Pos) {
 		e.obls = append(e.obls, ob)
 		return
 	}
-	ob.SMT, ob.SMTLight = e.buildQuery(s, []*Term{e.c.Not(goal)})
 	ob.goalTerm = goal
+	if e.lazySMT {
+		snap := *s
+		snap.pc = append([]*Term(nil), s.pc...)
+		snap.pcTag = append([]string(nil), s.pcTag...)
+		snap.axioms = append([]*Term(nil), s.axioms...)
+		snap.cands = append([]cand(nil), s.cands...)
+		snap.quants = append([]*Quant(nil), s.quants...)
+		uses := e.uses
+		ob.lazy = func() {
+			save := e.uses
+			e.uses = uses
+			ob.SMT, ob.SMTLight = e.buildQuery(&snap, []*Term{e.c.Not(goal)})
+			e.uses = save
+			ob.lazy = nil
+		}
+	} else {
+		ob.SMT, ob.SMTLight = e.buildQuery(s, []*Term{e.c.Not(goal)})
+	}
 	e.obls = append(e.obls, ob)
 }
 
@@ -705,6 +724,11 @@ func (e *Exec) batch(s *State, from int) {
 		members = append(members, o)
 	}
 	if len(members) < 3 {
+		for _, o := range members {
+			if o.lazy != nil {
+				o.lazy()
+			}
+		}
 		return
 	}
 	q, _ := e.buildQuery(s, []*Term{e.c.Not(e.c.And(goals...))})
